@@ -11,7 +11,7 @@ func init() {
 		ID:         "C33",
 		Level:      "other",
 		Technique:  "forward CFG reachability from every table mutation to error returns (commit-after-validate) + lock-prologue dominance over every registry field access + exhaustiveness of search loops and unfiltered lookup keys (static)",
-		Explain:    "Decides structural necessary conditions of `registries behave like a conflict-checking name table`: (1) in RegisterFile, RegisterMessage, RegisterEnum, RegisterExtension and the shared register helper no error return is reachable after any mutation of the registry tables (insertions, counters, file lists; a helper that inserts counts as a mutation on its success continuation), so a rejected registration leaves nothing behind and lookups/counters/ranges stay mutually consistent; (2) every method of Files/Types touches the tables only after the global-registry lock prologue, with the write lock when it (or a helper it calls) mutates; (3) every search loop of the lookup functions continues with the next element on a miss (no break, no nil return inside the loop), so a registered descriptor is found wherever it is declared; (4) the by-package readers use the package name as given (no early return under a predicate on it), matching the key RegisterFile stores.",
+		Explain:    "Decides structural necessary conditions of `registries behave like a conflict-checking name table`: (1) in RegisterFile, RegisterMessage, RegisterEnum, RegisterExtension and the shared register helper no error return is reachable after any mutation of the registry tables (insertions, counters, file lists; a helper that inserts counts as a mutation on its success continuation), so a rejected registration leaves nothing behind and lookups/counters/ranges stay mutually consistent; (2) every method of Files/Types touches the tables only after the global-registry lock prologue, with the write lock when it (or a helper it calls) mutates; (3) every search loop of the lookup functions continues with the next element on a miss (no break, no nil return inside the loop), so a registered descriptor is found wherever it is declared; (4) the by-package readers use the package name as given (no early return under a predicate on it), matching the key RegisterFile stores. Also: every condition that consults ignoreConflict, evaluated over (r is the global registry, policy says ignore), suppresses the conflict error only when both hold; every Range* method returns when the callback reports false.",
 		NotCovered: "which conflicts are detected (name, path, package/declaration, extension number) and the results of lookups on concrete histories; custom (non-global) registries are not synchronised by design.",
 		Quick:      all("./reflect/protoregistry"),
 		Thorough:   all("./..."),
